@@ -35,6 +35,9 @@ def prove(name, goal, expect="proved", replay=None, note=None, kind="post", step
     ob = Obligation(name, kind, goal, list(s.facts), list(s.pc),
                     {"expect": expect, "replay": replay, "note": note, "watches": list(s.watches),
                      "steps": steps, "timeout": timeout, "samples": samples, "strong_neg": strong_neg})
+    deps = s.ghost.get("active_hints")
+    if deps and expect == "proved":
+        ob.meta["hint_obs"] = list(deps)
     s.obligations.append(ob)
     return ob
 
@@ -61,6 +64,13 @@ def prove_with_hints(name, goal, hints, binding, replay=None, samples=None, time
                      "samples": samples, "timeout": timeout, "steps": None})
     s.obligations.append(ob)
     return ob
+
+
+def lemma(name, formula):
+    """staged ghost assertion: prove `formula` (hint obligation), then use it as a fact"""
+    from .hints import _hint_obligation
+    _hint_obligation(name, formula)
+    cur().add_fact(T.tz(formula))
 
 
 def canary(name, goal):
@@ -128,8 +138,12 @@ class Check:
         self.lemmas = []
 
     # -- running harnesses ---------------------------------------------------------------
-    def run(self, group, harness, max_paths=512):
+    def run(self, group, harness, max_paths=512, always=False):
         """explore all paths of `harness`; obligations get the prefix `<prop>/<group>/`"""
+        import re as _re
+        if getattr(self, "only", None) and not always and not _re.search(self.only, group):
+            return []
+        self.interp.hints = None
         ex = Explorer(max_paths=max_paths)
         try:
             sessions = ex.explore(harness, group)
@@ -165,6 +179,9 @@ class Check:
                 ob.name = nm
                 self.obligations.append(ob)
             for ob in s.obligations:
+                if ob.meta and ob.meta.get("hint_obs"):
+                    ob.meta["hints"] = (ob.meta.get("hints") or []) + [h.name for h in ob.meta.pop("hint_obs")]
+                    continue
                 if ob.meta and ob.meta.get("hints"):
                     ob.meta["hints"] = [rename.get(h, h) for h in ob.meta["hints"]]
                 if ob.meta and ob.meta.get("parent"):
@@ -185,15 +202,27 @@ class Check:
         # deduplicate identical safety goals (same facts/pc ids + goal id)
         for ob in self.obligations:
             try:
-                text, names = discharge.to_smt2(ob, ob.meta.get("watches") if ob.meta else None)
+                full, names = discharge.to_smt2(ob, ob.meta.get("watches") if ob.meta else None)
+                text, _ = discharge.to_smt2(ob, ob.meta.get("watches") if ob.meta else None, filtered=True)
             except z3.Z3Exception as e:
                 self.engine_errors.append("smt2 export %s: %s" % (ob.name, e))
                 continue
             to = (ob.meta or {}).get("timeout") or self.timeout
-            opts = {"steps": (ob.meta or {}).get("steps")}
+            opts = {"steps": (ob.meta or {}).get("steps"), "full_text": full if full != text else None}
+            if (ob.meta or {}).get("expect", "proved") == "proved":
+                tt = []
+                for mt in (0, 1):
+                    t_, _ = discharge.to_smt2(ob, None, maxtier=mt)
+                    if t_ != text and (not tt or tt[-1] != t_):
+                        tt.append(t_)
+                opts["tier_texts"] = tt
             if ob.meta and ob.meta.get("expect") == "refuted":
                 opts["steps"] = ["z3"]
-                to = min(to, 10.0)
+                to = min(to, 5.0)
+            dump = os.environ.get("PYVC_DUMP")
+            if dump and re.search(dump, ob.name):
+                os.makedirs("/var/tmp/pyvc_dump", exist_ok=True)
+                open("/var/tmp/pyvc_dump/" + _san(ob.name) + ".smt2", "w").write(text)
             tasks.append((ob.name, text, to, opts))
             meta[ob.name] = (ob, names, text)
         t1 = time.time()
@@ -451,3 +480,24 @@ def match_known(known, prop, obligation):
             if re.fullmatch(pat, obligation):
                 return kf
     return None
+
+
+def prove_result_safety(label, terms, replay=None):
+    """relevance-aware safety of the partial operations the given result terms depend on"""
+    from .rangecheck import safety_conditions
+    k = 0
+    for what, f in safety_conditions(terms):
+        prove("%s/safety:%s#%d" % (label, what, k), f, replay=replay, kind="safety")
+        k += 1
+    return k
+
+
+class lazy_safety:
+    """context: no eager safety obligations (the harness proves relevance-aware safety of the
+    results instead, prove_result_safety)"""
+
+    def __enter__(self):
+        T._safety_off[0] += 1
+
+    def __exit__(self, *a):
+        T._safety_off[0] -= 1
